@@ -71,10 +71,11 @@ def ticks(t):
 
 
 class Tx:
-    __slots__ = ("n", "t", "src", "dst", "data")
+    __slots__ = ("n", "t", "src", "dst", "data", "g")
 
-    def __init__(self, n, t, src, dst, data):
+    def __init__(self, n, t, src, dst, data, g=0):
         self.n, self.t, self.src, self.dst, self.data = n, t, src, dst, data
+        self.g = g        # index among the genuine transmissions (injected datagrams do not count)
 
 
 class Net:
@@ -84,6 +85,8 @@ class Net:
         self.endpoints = {}      # addr -> endpoint with _deliver(data, src)
         self.log = []            # ("tx", n, t, src, dst, data, delays) / ("rx", n, t, src, dst, data)
         self.ntx = 0
+        self.ngen = 0
+        self.ninj = 0
         self.fate = lambda tx: [0.0]      # default: immediate delivery (still through the loop)
         self.chunker = lambda data: [data]
         self.on_rx = None
@@ -102,7 +105,8 @@ class Net:
 
     def transmit(self, src, dst, data):
         self.ntx += 1
-        tx = Tx(self.ntx, self.loop.time(), src, dst, bytes(data))
+        self.ngen += 1
+        tx = Tx(self.ntx, self.loop.time(), src, dst, bytes(data), self.ngen)
         delays = list(self.fate(tx))
         self.log.append(("tx", tx.n, tx.t, src, dst, tx.data, tuple(delays)))
         if self.on_tx:
@@ -111,14 +115,16 @@ class Net:
             # delays are quantised to 2^-20 s and given a strictly increasing offset of 2^-30 s units: all instants stay
             # dyadic (float arithmetic exact, the Lean model uses integer ticks of 2^-30 s), equal delays keep FIFO order
             # (heapq is not stable) and distinct transmissions never arrive at the same instant
-            self.loop.call_later(quant(max(0.0, d)) + (self.ntx % 1048576) * 2.0 ** -30, self._arrive, tx)
+            self.loop.call_later(quant(max(0.0, d)) + (self.ngen % 524288) * 2.0 ** -29, self._arrive, tx)
 
     def inject(self, src, dst, data, delay=0.0):
         """third-party / forged datagram (not produced by an endpoint)"""
         self.ntx += 1
         tx = Tx(self.ntx, self.loop.time(), src, dst, bytes(data))
         self.log.append(("inject", tx.n, tx.t, src, dst, tx.data, (delay,)))
-        self.loop.call_later(quant(delay) + (self.ntx % 1048576) * 2.0 ** -30, self._arrive, tx)
+        # injected datagrams use the odd tick offsets, genuine ones the even: injections never shift genuine instants
+        self.ninj += 1
+        self.loop.call_later(quant(delay) + ((2 * self.ninj + 1) % 1048576) * 2.0 ** -30, self._arrive, tx)
         return tx.n
 
     def _arrive(self, tx):
